@@ -22,6 +22,7 @@ def run(ctx, prop, parts_quick, parts_thorough, sample_quick=None, modes=(16, 32
     ctx.build()
     rng = random.Random(ctx.seed)
     quick = ctx.tier == "quick"
+    ctx.tlc("MC_X86", workers=8, name="mc:X86 round trip (encoder vs decoder, MemLen, prefix-freedom)", timeout=900)
     parts = parts_quick if quick else parts_thorough
     cells = []
     per_part = {}
@@ -61,6 +62,7 @@ def run(ctx, prop, parts_quick, parts_thorough, sample_quick=None, modes=(16, 32
                        "non-trivial = statement assembled without diagnostic and judged by the ISA model." % (
                            ",".join(parts), " (quick tier: seeded sample of the large parts)" if quick and sample_quick else "", "/".join(map(str, modes)), batch),
         "samples": [render.stmt(c).strip() for c in (cells[:3] + cells[len(cells) // 2:len(cells) // 2 + 3] + cells[-3:])],
+        "model_checking": "MC_X86: for every addressing shape x boundary displacement x mode, every encoding produced by an independently written encoder decodes (X86.tla) to the source operand, MemLen is the length of the shortest one and the encodings are prefix-free",
         "tlc_runs": ctx.tlc_stats[:20], "exhaustive": not (quick and bool(sample_quick)),
     }
     return report.finish(ctx, prop, viol, known, other, R, cov, ASSUME)
